@@ -18,8 +18,8 @@ with the visitors `cbFind` / `cbFill`; `prepare` / `execute` / `info` transcribe
   `Parameter` traverses nothing), kernel-evaluated on the probed schema.
 * `C12_execute`, `C12_mismatch` (T12.4): after `prepare q`, `execute vs` plans the filled tree iff the
   count matches, else `PlanningException`.
-* witnesses: `C12_witness_update` (first value bound to the WHERE placeholder), `C12_witness_from_arg`
-  (placeholder in a function's FROM-argument not found); `C12_case_operand` (regression, a58885a).
+* witnesses: `C12_witness_update` (first value bound to the WHERE placeholder), `C12_case_operand`, `C12_from_arg`
+  (regressions, a58885a / 674e01f: placeholders in a CASE operand and in a FROM-argument are found).
 * regression theorems for defects fixed in the library (80e5910, b11daf5): `C12_second_execute` (a second
   `execute` with values raises PlanningException, for every statement), `C12_info_after_execute`
   (`get_statement_info` reports no parameters after execution), `C12_keeps_alias` (the constant written
@@ -159,10 +159,10 @@ def wCase : Node := .mk (cid "Select") 0 0
     [param "Case" "arg" 2, param "Case" "rules" 3, param "Case" "rules" 4]]
 theorem C12_case_operand : (getParams σ P wCase).map Node.tag = [2, 3, 4] := by decide +kernel
 
-/-- `SELECT extract(? FROM ?)`: 2 placeholders in the text, `prepare` reports 1 -/
+/-- (regression, fixed by 674e01f) `SELECT extract(? FROM ?)`: both placeholders are found, in textual order -/
 def wFromArg : Node := .mk (cid "Select") 0 0
   [.mk (cid "Function") (sid "Select" "targets") 1 [param "Function" "args" 2, param "Function" "from_arg" 3]]
-theorem C12_witness_from_arg : (getParams σ P wFromArg).length = 1 := by decide +kernel
+theorem C12_from_arg : (getParams σ P wFromArg).map Node.tag = [2, 3] ∧ okTree σ wFromArg = true := by decide +kernel
 
 /-- (regression, fixed by 80e5910) a second `execute` with values raises PlanningException — for every statement -/
 theorem C12_second_execute (σ : Schema) (P C : Nat) (q : Node) (vs ws : List Nat) (s0 : PState)
